@@ -31,4 +31,19 @@ PROPS = {
         "explanation": "Lean theorems: comparator laws on valid encodings, separator contract, min-key; model == implementation on compare/"
                        "fixed_width/min_encoded_key exactly, separators judged by the decidable contract sepOk (byte equality is a statistic)",
     },
+    "C04": {
+        "props_module": "RedbModel.Props.C04",
+        "streams": [("table", [], "table")],
+        "rule": "cases = (a) page 512: every insert/remove sequence of fixed depth over six byte keys whose value sizes sit on the split and "
+                "merge thresholds, across two transactions; (b) random programs over three key families (u64, &[u8] with shared prefixes/empty/"
+                "multi-page keys, &str with multi-byte UTF-8) using every table API of the property (insert, insert_reserve, get, get_mut, entry, "
+                "remove, pop_first/last, range both directions + alternating, first/last, len, retain/retain_in, extract_if/extract_from_if with "
+                "partial consumption), value sizes 0..5 pages around 1/3, 1/2 and 1 page, page sizes 512..16384, region sizes, cache sizes incl. 0, "
+                "1-8 transactions with abort and reopen; distinct by hash of the lines; non-trivial if the program completed",
+        "trusted_base": BASE_TRUST + ["modelled, not verified: the observable behaviour of table.rs / btree*.rs as the sorted-map Spec; the abstract B+tree routing (linear scan stands for the binary search of child_for_key)"],
+        "assumptions": ["inverted ranges (lo > hi) are not generated (caller error in std collections)"],
+        "explanation": "Lean: Spec is a sorted map (laws for every comparator satisfying CmpLaws), a well-formed B+tree answers lookups as its "
+                       "sorted entry list; correspondence: every returned value and committed contents (hash) equal Spec; oracle: sorted vector "
+                       "ordered by the implementation's own compare",
+    },
 }
